@@ -152,7 +152,7 @@ Proof. constructor; cbn; try (intros c []); constructor. Qed.
 (* ---- every operation preserves the invariant *)
 Lemma sstep_inv s o : SInv s -> SInv (sstep s o).
 Proof.
-  intros H. destruct o as [spk dir|spk|mfpk blobpk spk name|mfpk|kpk kid|kpk|mfpk kpk|mpk name|mpk|ppk mpk pid spk|ppk|apk ppk|spk dir];
+  intros H. destruct o as [spk dir|spk|mfpk blobpk spk name|mfpk|kpk kid|kpk|mfpk kpk|mpk name|mpk|ppk mpk pid spk|ppk|apk ppk|spk dir|apk];
     cbn [sstep].
   - (* add stream, replacing one of the same directory *)
     set (s1 := match filter (fun x => snd x =? dir) (streams s) with (old, _) :: _ => delete_stream s old | [] => s end).
@@ -232,6 +232,10 @@ Proof.
     { rewrite map_map. apply map_ext. intros [a b]. cbn [fst]. destruct (a =? spk) eqn:E; cbn [fst]; lia. }
     destruct H as [A1 A2 A3 A4 A5 A6 A7 A8 M1 M2 M3 M4].
     constructor; unfold set_streams; cbn [streams files blobs keys links mpss periods asets]; try assumption; rewrite Hpk; assumption.
+  - (* drop an adaptation set: nothing refers to it *)
+    destruct H as [A1 A2 A3 A4 A5 A6 A7 A8 M1 M2 M3 M4].
+    constructor; cbn [streams files blobs keys links mpss periods asets]; try assumption.
+    apply refs_filter. exact A8.
 Qed.
 
 Lemma fold_inv ops : forall s, SInv s -> SInv (fold_left sstep ops s).
